@@ -175,3 +175,25 @@ def install_partitions(I):
         I.return_partition[f] = by_result
     I.return_partition['util::date::convert::days_to_doy'] = lambda I, st, v: None
     I.return_partition['util::date::convert::days_to_wyear'] = lambda I, st, v: None
+
+
+def install_valid_date_contract(I):
+    """kernel contract K-VALID: the (year, month, day) returned by days_to_date is a date of the calendar table, i.e.
+    day <= length of that month according to year_month_to_doy (what C01 is about; assumed where a property builds on it)."""
+    D2D = 'util::date::convert::days_to_date'
+    YMD = 'util::date::convert::year_month_to_doy'
+
+    def contract(I, st, args, dty, site):
+        outs = []
+        for s1, rv in I.call_body(st, D2D, args, site):
+            if rv[0] != 't' or len(rv[1]) != 3 or any(x[0] != 'i' for x in rv[1]):
+                outs.append((s1, rv))
+                continue
+            y, m, d = rv[1]
+            for s2, r2 in I.call_body(s1, YMD, [y, m], site):
+                if r2[0] == 'e' and set(r2[2]) == {0}:
+                    md = r2[2][0][0][1][1]
+                    if D.refine_cmp(s2, 'Le', d[1], md[1]):
+                        outs.append((s2, rv))
+        return outs
+    I.contracts[D2D] = contract
